@@ -33,7 +33,7 @@ K(a, b, c) == a * 2000 + b * 40 + c
 \* (names that merely START with a keyword -- notes, indexes_count, tables -- are ordinary bare identifiers)
 TableNames == <<"users", "Users", "orders", "order items", "table", "~u00dc~n~u00ef~", "Products", "t_1", "note", "ref", "notes", "tables", "123", "a  b", "t[1]", "products">>
 SchemaPool == <<"", "", "", "s1", "my schema", "public", "s1">>
-AliasPool  == <<"u", "O", "oi", "my alias", "a5", "P", "t1a", "n8", "r9">>
+AliasPool  == <<"u", "O", "oi", "my alias", "a5", "P", "t1a", "n8", "r9", "al.ias">>      \* (an alias may contain a dot: it is one name)
 ColNames   == <<"id", "ID", "name", "user id", "note", "Note", "type", "~u540d~~u524d~", "Ref", "c_2", "default", "pk", "notes", "indexes_count", "ref_id", "1st", "0", "tags[]", "a^b", "`code`", "Id">>
 EnumNames  == <<"status", "Status", "order status", "enum", "~u00e9~tat", "e^2">>
 EnumItems  == <<"new", "in progress", "done", "~u2713~ ok", "null", "x-1", "notes", "0", "New">>
@@ -158,7 +158,8 @@ RandTable(seed, t, withProps) ==
    color |-> Pick(seed, K(t, 0, 7), Colors), note |-> Maybe(seed, K(t, 0, 8), 35, Texts),
    props |-> IF withProps THEN RandProps(seed, K(t, 0, 10)) ELSE <<>>, comment |-> "",
    cols |-> [c \in 1..NCols(seed, t) |-> RandCol(seed, t, c, withProps)],
-   idxs |-> [x \in 1..ni |-> RandIdx(seed, t, x)]]
+   \* (equal twins: an index may repeat its predecessor verbatim -- two declarations, two indexes)
+   idxs |-> [x \in 1..ni |-> IF x > 1 /\ Coin(seed, K(t, 10 + x, 15), 15) THEN RandIdx(seed, t, x - 1) ELSE RandIdx(seed, t, x)]]
 
 RandEnum(seed, e) ==
   [d |-> "enum", schema |-> ESchema(seed, e), name |-> EName(seed, e),
